@@ -452,9 +452,223 @@ class _Idioms(ast.NodeTransformer):
         return node
 
 
+# ------------------------------------------------------------ procedure inlining
+def _proc_inlinable(fn: ast.AST, tail: bool) -> bool:
+    """A private method / function whose call can be replaced by its body: simple parameter list,
+    no generator / nested definitions, and a single exit (a `return` only as the last top-level
+    statement) unless the call is in tail position (`return helper(...)`)."""
+    if not isinstance(fn, ast.FunctionDef) or not fn.name.startswith("_") or fn.name.startswith("__"):
+        return False
+    if any(not (isinstance(d, ast.Name) and d.id == "staticmethod") for d in fn.decorator_list):
+        return False
+    a = fn.args
+    if a.vararg or a.kwarg or a.posonlyargs:
+        return False
+    if any(not isinstance(d, ast.Constant) for d in list(a.defaults) + [d for d in a.kw_defaults if d is not None]):
+        return False
+    for n in ast.walk(fn):
+        if isinstance(n, (ast.Yield, ast.YieldFrom, ast.Await, ast.Global, ast.Nonlocal, ast.Lambda, ast.NamedExpr)):
+            return False
+        if isinstance(n, (ast.FunctionDef, ast.AsyncFunctionDef, ast.ClassDef)) and n is not fn:
+            return False
+        if isinstance(n, (ast.ListComp, ast.SetComp, ast.DictComp, ast.GeneratorExp)):
+            pass
+    if not tail:
+        # early returns are fine (the body is wrapped in a one-pass loop and they become `break`),
+        # unless they sit inside a loop of the helper itself
+        def in_loop(node, inside=False):
+            for ch in ast.iter_child_nodes(node):
+                if isinstance(ch, ast.Return) and inside:
+                    return True
+                if in_loop(ch, inside or isinstance(ch, (ast.For, ast.While, ast.AsyncFor))):
+                    return True
+            return False
+
+        if in_loop(fn):
+            return False
+    return True
+
+
+def _has_early_return(fn: ast.FunctionDef) -> bool:
+    body = [s_ for s_ in fn.body if not (isinstance(s_, ast.Expr) and isinstance(s_.value, ast.Constant))]
+    for i, s_ in enumerate(body):
+        for x in ast.walk(s_):
+            if isinstance(x, ast.Return) and not (x is s_ and i == len(body) - 1):
+                return True
+    return False
+
+
+class _Rename(ast.NodeTransformer):
+    def __init__(self, mapping: dict[str, ast.AST], renames: dict[str, str]) -> None:
+        self.mapping, self.renames = mapping, renames
+
+    def visit_Name(self, n: ast.Name):
+        import copy
+
+        if n.id in self.mapping and isinstance(n.ctx, ast.Load):
+            return ast.copy_location(copy.deepcopy(self.mapping[n.id]), n)
+        if n.id in self.renames:
+            return ast.copy_location(ast.Name(id=self.renames[n.id], ctx=n.ctx), n)
+        return n
+
+
+def _inline_procedures(tree: ast.Module) -> None:
+    """Source normal form for path analyses: in the *public* methods of a class (the entry points
+    that rules analyse path by path), a call `self._helper(...)` of a private single-exit method of
+    the same class, written as a statement, as the whole right-hand side of an assignment or as the
+    value of a `return`, is replaced by the helper's body (parameters bound to fresh locals, the
+    helper's locals renamed).  Splitting a long method into private pieces therefore does not change
+    the control-flow graph the rules see.  The helpers themselves stay defined."""
+    import copy
+
+    counter = [0]
+
+    def expand(fn: ast.FunctionDef, helpers: dict, selfname: str | None, depth: int) -> None:
+        if depth > 3:
+            return
+        for par in list(ast.walk(fn)):
+            for fld in ("body", "orelse", "finalbody"):
+                lst = getattr(par, fld, None)
+                if not isinstance(lst, list) or (par is not fn and isinstance(par, (ast.FunctionDef, ast.ClassDef))):
+                    continue
+                new: list = []
+                for st in lst:
+                    call, form = None, None
+                    if isinstance(st, ast.Expr) and isinstance(st.value, ast.Call):
+                        call, form = st.value, "expr"
+                    elif isinstance(st, ast.Assign) and isinstance(st.value, ast.Call) and len(st.targets) == 1:
+                        call, form = st.value, "assign"
+                    elif isinstance(st, ast.AnnAssign) and isinstance(st.value, ast.Call) and isinstance(st.target, ast.Name):
+                        call, form = st.value, "annassign"
+                    elif isinstance(st, ast.Return) and isinstance(st.value, ast.Call):
+                        call, form = st.value, "return"
+                    h = None
+                    if call is not None and selfname is not None and isinstance(call.func, ast.Attribute) and isinstance(call.func.value, ast.Name) and call.func.value.id == selfname:
+                        h = helpers.get(call.func.attr)
+                    if h is None or h is fn or not _proc_inlinable(h, form == "return") or any(isinstance(a_, ast.Starred) for a_ in call.args) or any(k.arg is None for k in call.keywords):
+                        new.append(st)
+                        continue
+                    counter[0] += 1
+                    tag = f"__inl{counter[0]}_"
+                    static = any(isinstance(d, ast.Name) and d.id == "staticmethod" for d in h.decorator_list)
+                    params = [a_.arg for a_ in h.args.args]
+                    mapping: dict[str, ast.AST] = {}
+                    pre: list = []
+                    if not static and params:
+                        mapping[params[0]] = ast.Name(id=selfname, ctx=ast.Load())
+                        params = params[1:]
+                    bound: dict[str, ast.AST] = {}
+                    for p_, a_ in zip(params, call.args):
+                        bound[p_] = a_
+                    for k in call.keywords:
+                        bound[k.arg] = k.value
+                    allp = params + [a_.arg for a_ in h.args.kwonlyargs]
+                    nd = len(h.args.defaults)
+                    dflt = dict(zip([a_.arg for a_ in h.args.args][len(h.args.args) - nd:], h.args.defaults)) if nd else {}
+                    dflt.update({a_.arg: d for a_, d in zip(h.args.kwonlyargs, h.args.kw_defaults) if d is not None})
+                    okb = True
+                    stores = {x.id for x in ast.walk(h) if isinstance(x, ast.Name) and isinstance(x.ctx, ast.Store)}
+                    for p_ in allp:
+                        v = bound.get(p_, dflt.get(p_))
+                        if v is None:
+                            okb = False
+                            break
+                        if _simple_arg(v) and p_ not in stores:
+                            mapping[p_] = v
+                        else:
+                            asg = ast.Assign(targets=[ast.Name(id=tag + p_, ctx=ast.Store())], value=copy.deepcopy(v), type_comment=None)
+                            pre.append(ast.copy_location(asg, st))
+                    if not okb or len(call.args) > len(params):
+                        new.append(st)
+                        continue
+                    renames = {n_: tag + n_ for n_ in stores | {p_ for p_ in allp if p_ not in mapping}}
+                    body = [copy.deepcopy(s_) for s_ in h.body if not (isinstance(s_, ast.Expr) and isinstance(s_.value, ast.Constant))]
+                    body = [_Rename(mapping, renames).visit(s_) for s_ in body]
+                    out = pre + body
+                    if form != "return" and _has_early_return(h):
+                        # one-pass loop: `return E` -> `<target> = E; break`
+                        tgt_name = tag + "result"
+
+                        class _Ret(ast.NodeTransformer):
+                            def visit_Return(self, r_):
+                                asg_ = ast.Assign(targets=[ast.Name(id=tgt_name, ctx=ast.Store())], value=r_.value if r_.value is not None else ast.Constant(value=None), type_comment=None)
+                                return [ast.copy_location(asg_, r_), ast.copy_location(ast.Break(), r_)]
+
+                            def visit_FunctionDef(self, n_):
+                                return n_
+
+                        loop_body = [_Ret().visit(s_) for s_ in body]
+                        flat = []
+                        for x in loop_body:
+                            flat.extend(x if isinstance(x, list) else [x])
+                        if not flat or not isinstance(flat[-1], ast.Break):
+                            flat.append(ast.copy_location(ast.Assign(targets=[ast.Name(id=tgt_name, ctx=ast.Store())], value=ast.Constant(value=None), type_comment=None), st))
+                            flat.append(ast.copy_location(ast.Break(), st))
+                        loop = ast.While(test=ast.Constant(value=True), body=flat, orelse=[])
+                        out = pre + [ast.copy_location(loop, st)]
+                        res_load = ast.Name(id=tgt_name, ctx=ast.Load())
+                        if form == "assign":
+                            out.append(ast.copy_location(ast.Assign(targets=st.targets, value=res_load, type_comment=None), st))
+                        elif form == "annassign":
+                            out.append(ast.copy_location(ast.AnnAssign(target=st.target, annotation=st.annotation, value=res_load, simple=1), st))
+                    elif form != "return":
+                        last = out[-1] if out else None
+                        ret_val = None
+                        if isinstance(last, ast.Return):
+                            ret_val = last.value
+                            out = out[:-1]
+                        if form == "assign":
+                            asg = ast.Assign(targets=st.targets, value=ret_val if ret_val is not None else ast.Constant(value=None), type_comment=None)
+                            out.append(ast.copy_location(asg, st))
+                        elif form == "annassign":
+                            asg = ast.AnnAssign(target=st.target, annotation=st.annotation, value=ret_val if ret_val is not None else ast.Constant(value=None), simple=1)
+                            out.append(ast.copy_location(asg, st))
+                        elif ret_val is not None:
+                            out.append(ast.copy_location(ast.Expr(value=ret_val), st))
+                    if not out:
+                        out = [ast.copy_location(ast.Pass(), st)]
+                    new.extend(out)
+                lst[:] = new
+        # helpers inlined above may call further helpers
+        if depth < 3 and any(isinstance(x, ast.Name) and x.id.startswith("__inl") for x in ast.walk(fn)):
+            pass
+
+    for cls in [n for n in ast.walk(tree) if isinstance(n, ast.ClassDef)]:
+        helpers = {n.name: n for n in cls.body if isinstance(n, ast.FunctionDef)}
+        bases = [dotted(b) or "" for b in cls.bases]
+        for fn in [n for n in cls.body if isinstance(n, ast.FunctionDef)]:
+            if fn.name.startswith("__") or not fn.args.args:
+                continue
+            # only the protocol classes whose paths the rules walk: plan steps and result handlers (all
+            # their methods: run, the evaluation signal, nested runners), Plan, and optimizer.start
+            # (numeric kernels and the SciPy plug-in's cache protocol stay as written)
+            entry = (
+                any(b.endswith("Step") or b.endswith("Handler") for b in bases)
+                or (fn.name == "start" and any(b.endswith("Optimizer") for b in bases))
+                or cls.name == "Plan"
+            )
+            if not entry:
+                continue
+            if any(isinstance(d, ast.Name) and d.id in ("staticmethod", "classmethod", "property") for d in fn.decorator_list):
+                continue
+            for _round in range(3):
+                before = ast.dump(fn)
+                expand(fn, helpers, fn.args.args[0].arg, 0)
+                if ast.dump(fn) == before:
+                    break
+
+
+INLINE_PROCEDURES = True
+
+
 def normalise_tree(tree: ast.Module) -> ast.Module:
     tree = _Unroll().visit(tree)
     tree = _Idioms().visit(tree)
+    if INLINE_PROCEDURES:
+        try:
+            _inline_procedures(tree)
+        except Exception:  # noqa: BLE001 - optional normal form
+            pass
     try:
         _inline_statement_helpers(tree)
     except Exception:  # noqa: BLE001 - optional normal form
